@@ -16,7 +16,7 @@ import sys
 import copybook_gen as G
 import layout_common as LC
 
-GEN = ["GlobalsParams", "SchemaMakerParams", "StructureParams"]
+GEN = ["GlobalsParams", "SchemaMakerParams", "StructureParams", "EffectParams"]
 RULE = ("directed histories (the two repaired defects, a parse that raises half way, a kept navigator over an ODO + REDEFINES "
         "record while other records are read, documents with forward $ref, reused makers) and random histories of 3-25 calls "
         "(quick; up to 60 thorough) drawn from: parse one of ~40 copybooks (hand-written fragments without level 01, several "
@@ -36,8 +36,16 @@ RULE = ("directed histories (the two repaired defects, a parse that raises half 
         "+2 extended maker in the history), 32 read / csv probe. distinct = distinct case lines.")
 TRIVIAL_BRANCHES = [0]
 ASSUMPTIONS = [
-    "the first half of the property (documents and loaded schemas keep their initial state) has NO theorem: it is checked only "
-    "on the histories of this run, by fingerprints taken when an object is first seen and after the probe "
+    "the first half of the property (documents and loaded schemas keep their initial state) is a theorem about a heap model "
+    "(coq/Props/C11c.v: C11c_document_unchanged, C11c_loaded_schema_unchanged, C11c_current_source) whose tie to the code is the "
+    "EFFECT SUMMARY read from the source on every run (harness/t1_c11heap.py -> coq/Gen/EffectParams.v): the classification of "
+    "every mutation site of schema_instance.py, workbook.py, implementations.py and the use-side of cobol_parser.py by the root of "
+    "the mutated object is TRUSTED, as are the CPython semantics of the constructs it recognises (literals, comprehensions and "
+    "constructor calls yield new objects; typing.cast is the identity; attribute assignment never changes a dict or list) and "
+    "that functions outside the scanned modules do not mutate the arguments handed to them; the producer pipeline of "
+    "cobol_parser is covered only for its class-level writes (its heap is C07b's)",
+    "independently of that theorem the first half is checked on the histories of this run, by fingerprints taken when an object "
+    "is first seen and after the probe "
     "(document JSON text with key order; class / anchor / ref / ref_to structure and instance attribute names of every Schema "
     "node; every Schema node still aliases its document node; schema.json() is the document)",
     "per-object state (JSONSchemaMaker.names, SchemaMaker.name_cache / fixup_list, LocationMaker.anchors) is not in the model; "
@@ -48,7 +56,8 @@ ASSUMPTIONS = [
     "observations are compared through 128-bit BLAKE2b digests of their canonical serialisation",
     "a fresh interpreter = a new python process with PYTHONHASHSEED=0 and only the tree under test on PYTHONPATH",
 ]
-TRUSTED = ["harness/c11_probe.py (runtime that executes histories and serialises observations)",
+TRUSTED = ["harness/t1_c11heap.py (effect-summary pass: mutation sites and their root classes; fail-closed to coq/Gen/EffectParams.pinned)",
+           "harness/c11_probe.py (runtime that executes histories and serialises observations)",
            "harness/layout_common.py / copybook_gen.py generators and printers (inputs only)"]
 
 PROBE = os.path.join(os.path.dirname(os.path.abspath(__file__)), "c11_probe.py")
